@@ -56,9 +56,21 @@ Definition meet (l : list wsite) : handler :=
 Definition all_propagate (l : list wsite) : bool :=
   match l with [] => false | _ => forallb (fun s => handler_eqb (ws_handler s) Propagate) l end.
 
+(* the writeLine calls inside writeBatch / writeIATBatch: there even `return nil` is covered
+   (the batch function returns nil, Write goes on and meets bufio's sticky error:
+   Props/C16Seq.v, per-site model), so for the grouped model it counts as dropping the error *)
+Definition meet_body (l : list wsite) : handler :=
+  match l with
+  | [] => Absent
+  | _ =>
+      if forallb (fun s => handler_eqb (ws_handler s) Propagate) l then Propagate
+      else if forallb (fun s => lsoft (ws_handler s)) l then Ignore
+      else Unknown
+  end.
+
 Definition body_handler (t : list wsite) : handler :=
   if all_propagate (sel_fc "Write" "writeBatch" t) && all_propagate (sel_fc "Write" "writeIATBatch" t)
-  then meet (sel_fc "writeBatch" "writeLine" t ++ sel_fc "writeIATBatch" "writeLine" t)
+  then meet_body (sel_fc "writeBatch" "writeLine" t ++ sel_fc "writeIATBatch" "writeLine" t)
   else Unknown.
 
 Definition final_handler (t : list wsite) : handler :=
